@@ -188,8 +188,9 @@ func readCurrentRegex(filePath string, ruleId string, chainOffset uint8) string 
 
 	lines := bytes.Split(contents, []byte("\n"))
 
-	// match the complete id, in rule text only (not in comments)
-	idRegex := regexp.MustCompile(fmt.Sprintf(`^\s*(?:[^#\s].*)?\bid:%s(?:\D|$)`, ruleId))
+	// match the complete id, in rule text only (not in comments or in the
+	// quoted value of another action such as msg:'see id:123456')
+	idRegex := regexp.MustCompile(fmt.Sprintf(`^\s*(?:[^#\s'](?:[^'\\]|\\.|'(?:[^'\\]|\\.)*')*)?\bid:%s(?:\D|$)`, ruleId))
 	index := 0
 	var line []byte
 	foundRule := false
